@@ -364,8 +364,8 @@ def r11_5(cx):
 
 def r11_6(cx):
     """what the encoder writes into: a sink whose allocator serves every value size (R17.7) and whose size accounting survives reuse (R3.2)"""
-    from . import c17, c03
-    compose(cx, [('R17.7', c17.r17_7), ('R3.2', c03.r3_2)])
+    from . import c17, c03, c12
+    compose(cx, [('R17.7', c17.r17_7), ('R3.2', c03.r3_2), ('R12.1', c12.r12_1)])
 
 
 RULES = [('R11.1', r11_1), ('R11.2', r11_2), ('R11.3', r11_3), ('R11.4', r11_4), ('R11.5', r11_5), ('R11.6', r11_6)]
